@@ -23,8 +23,8 @@ KF_BITSET = "BitSetDocSet: advance() after a seek past the last document resumes
 KF_INTERCOUNT = "Intersection::count_including_deleted (dense path) consumes the set but leaves doc() on a stale document of its first leg (score() there can panic)"
 KF_UNIONDANGER = ("BufferedUnionScorer::seek_danger with a target before its buffered window ignores the buffered documents: the lower "
                   "bound it returns lies beyond the next document of the set")
-KF_UNIONMEMBER = ("BufferedUnionScorer::seek_danger leaves a member that missed in the danger zone; when a later seek_danger succeeds "
-                  "through another member, the stale member's position (a document with the terms of a phrase but not the phrase, "
+KF_UNIONMEMBER = ("BufferedUnionScorer::seek_danger leaves a member that missed in the danger zone; when the same or a later seek_danger "
+                  "succeeds through another member, the stale member's position (a document with the terms of a phrase but not the phrase, "
                   "or the lead document of an intersection) is emitted as a document of the union, with a wrong score")
 KF_UNIONFILL = "BufferedUnionScorer::fill_buffer leaves score() stale and does not clear the score combiners (scores of later documents are wrong)"
 
@@ -190,8 +190,7 @@ def classify(d):
             return "C13 DocSet: " + KF_BITSET + " [sticky end violated by advance() after " + how + "]"
         return "C13 DocSet: advance() on a terminated scorer returned a document (sticky end)"
     sd = [p for p in d["program"][: d["step"]] if p.get("op") == "seek_danger"]
-    if (union_has_danger_member(d.get("q", {})) and any(not p.get("found") for p in sd) and sd and sd[-1].get("found")
-            and any(not p.get("found") for p in sd[:-1])):
+    if union_has_danger_member(d.get("q", {})) and any(p.get("found") for p in sd) and op != "panic":
         return "C13 DocSet: " + KF_UNIONMEMBER
     if d.get("legal") and d.get("data_ok") and d.get("ret_ok") and not d.get("score_ok"):
         if any(p.get("op") == "fill_buffer" for p in prev) or op == "fill_buffer":
